@@ -155,7 +155,7 @@ Proof.
   - inversion H; subst; clear H. exists te. cbn. repeat (split; [assumption || reflexivity|]). intro x; reflexivity.
   - inversion H; subst; clear H. exists te. cbn. repeat (split; [assumption || reflexivity|]). intro x; reflexivity.
   - inversion H; subst; clear H. exists te. cbn. repeat (split; [assumption || reflexivity|]). intro x; reflexivity.
-  - (* delegate *) destruct keys as [|k0 keys]; [discriminate|]. inversion H; subst; clear H.
+  - (* delegate *) destruct (if bytes_eqb name name_targets_role then [] else keys) as [|k0 keys']; [discriminate|]. inversion H; subst; clear H.
     eexists. split; [reflexivity|]. cbn. split; [exact Hok|]. repeat (split; [reflexivity|]). intro x; reflexivity.
 Qed.
 
@@ -306,7 +306,7 @@ Proof.
   1-5: destruct (rd_te st) as [te|] eqn:Hte; [|discriminate]; intro H; inversion H; subst; clear H;
        unfold st_names, top_names, te_names; cbn; rewrite Hte; apply incl_refl.
   1-4: intro H; inversion H; subst; clear H; unfold st_names, top_names, te_names; cbn; apply incl_refl.
-  - (* delegate *) destruct keys as [|k0 keys]; [discriminate|]. destruct (rd_te st) as [te|] eqn:Hte; [|discriminate].
+  - (* delegate *) destruct (if bytes_eqb name name_targets_role then [] else keys) as [|k0 keys']; [discriminate|]. destruct (rd_te st) as [te|] eqn:Hte; [|discriminate].
     intro H. inversion H; subst; clear H. unfold st_names, top_names, te_names. cbn [rd_top rd_te with_te te_children te_new_roles].
     rewrite Hte, app_assoc, names_all_roles_app. cbn [all_roles flat_map en_flat en_children names map app en_name en_hdr dh_name].
     rewrite app_assoc. apply incl_refl.
@@ -384,4 +384,179 @@ Proof.
   - eapply ed_sign_tree_names. exact Hsign.
   - apply Forall_forall. intros n Hn. rewrite Forall_forall in Hsmall. apply Hsmall, Hincl, in_names, Hn.
   - intros Hcs Hin. apply (Hnext Hcs). apply Hincl. exact Hin.
+Qed.
+
+(* ---------------------------------------------------------------------------------------- *)
+(* the map invariant holds in every state a program reaches *)
+Definition st_ok (st : red) : Prop := match rd_te st with Some te => te_ok te | None => True end.
+
+Lemma sign_editor_ok r st keys st' : sign_editor r st keys = Some st' -> st_ok st -> st_ok st'.
+Proof.
+  unfold sign_editor. destruct (rd_te st) as [te|] eqn:Hte; [|intros H Hok; inversion H; subst; exact Hok].
+  destruct (ted_build r te keys); [|discriminate]. destruct (bytes_eqb _ _).
+  - intros H _; inversion H; subst. exact I.
+  - destruct (rd_top st); [|discriminate]. destruct (replace_role _ _ _); [|discriminate]. intros H _; inversion H; subst. exact I.
+Qed.
+
+Lemma step_ok r st o st' : ed_step r st o = Some st' -> st_ok st -> st_ok st'.
+Proof.
+  intros H Hok. destruct (stays o) eqn:S.
+  - unfold st_ok in *. destruct (rd_te st) as [te|] eqn:Hte.
+    + destruct (step_stays r st te o st' Hte Hok S H) as (te' & -> & Hok' & _). exact Hok'.
+    + destruct o; try discriminate S; cbn [ed_step] in H; rewrite ?Hte in H; try discriminate;
+        try (inversion H; subst; cbn; exact I).
+      repeat match type of H with context [match ?x with _ => _ end] => destruct x end; discriminate.
+  - destruct o; try discriminate S; cbn [ed_step] in H.
+    + eapply sign_editor_ok; eassumption.
+    + destruct (rd_te st); [discriminate|]. destruct (rd_top st) as [top|]; [|discriminate].
+      destruct (bytes_eqb role name_targets_role); [inversion H; subst; exact I|].
+      destruct (parent_in role top) as [[dk sibs]|]; [|discriminate]. destruct (find_role_in role top); [|discriminate].
+      inversion H; subst. exact I.
+    + destruct (rd_top st); [|discriminate]. inversion H; subst. exact I.
+    + destruct (ed_at_sign st keys); [|discriminate]. destruct (sign_accepts r s); [|discriminate].
+      eapply sign_editor_ok; eassumption.
+Qed.
+
+Lemma run_ok r : forall ops st, st_ok st -> st_ok (fst (ed_run r st ops)).
+Proof.
+  induction ops as [|o ops IH]; intros st H; cbn [ed_run]; [exact H|].
+  destruct (ed_step r st o) as [st'|] eqn:S.
+  - specialize (IH st' (step_ok r st o st' S H)). destruct (ed_run r st' ops). exact IH.
+  - specialize (IH st H). destruct (ed_run r st ops). exact IH.
+Qed.
+
+Lemma run_app r : forall a b st, fst (ed_run r st (a ++ b)) = fst (ed_run r (fst (ed_run r st a)) b).
+Proof.
+  induction a as [|o a IH]; intros b st; cbn [app ed_run fst]; [reflexivity|].
+  destruct (ed_step r st o) as [st'|].
+  - specialize (IH b st'). destruct (ed_run r st' (a ++ b)), (ed_run r st' a). exact IH.
+  - specialize (IH b st). destruct (ed_run r st (a ++ b)), (ed_run r st a). exact IH.
+Qed.
+
+(* a stretch of operations on one role: its targets are the abstract map's *)
+Definition spec_targets (ops : list edop) (f : tname -> option tinfo) : tname -> option tinfo :=
+  fold_left (fun g o => spec_targets_step o g) ops f.
+
+Lemma spec_step_ext o f g : (forall n, f n = g n) -> forall n, spec_targets_step o f n = spec_targets_step o g n.
+Proof. intros H n. destruct o; cbn [spec_targets_step]; try apply H; try reflexivity; destruct (tname_eqb n n0); auto. Qed.
+Lemma spec_targets_ext ops : forall f g, (forall n, f n = g n) -> forall n, spec_targets ops f n = spec_targets ops g n.
+Proof.
+  induction ops as [|o ops IH]; intros f g H n; cbn [spec_targets fold_left]; [apply H|].
+  apply IH. apply spec_step_ext, H.
+Qed.
+
+Lemma refused_stays r st te o : rd_te st = Some te -> stays o = true -> ed_step r st o = None ->
+  forall f n, spec_targets_step o f n = f n.
+Proof.
+  intros Hte S H f n. destruct o; try discriminate S; cbn [ed_step] in H; rewrite ?Hte in H; try discriminate. reflexivity.
+Qed.
+
+Lemma run_stays r : forall ops st te, rd_te st = Some te -> te_ok te -> forallb stays ops = true ->
+  exists te', rd_te (fst (ed_run r st ops)) = Some te' /\ te_ok te' /\ te_name te' = te_name te
+              /\ te_holder te' = te_holder te /\ rd_top (fst (ed_run r st ops)) = rd_top st
+              /\ forall n, te_lookup te' n = spec_targets ops (te_lookup te) n.
+Proof.
+  induction ops as [|o ops IH]; intros st te Hte Hok Hs; cbn [ed_run fst].
+  - exists te. repeat (split; [assumption || reflexivity|]). intro n. reflexivity.
+  - cbn [forallb] in Hs. apply andb_true_iff in Hs as [So Hs]. destruct (ed_step r st o) as [st'|] eqn:S.
+    + destruct (step_stays r st te o st' Hte Hok So S) as (te1 & Hte1 & Hok1 & Hn1 & Hh1 & _ & Htop1 & Hl1).
+      destruct (IH st' te1 Hte1 Hok1 Hs) as (te' & H1 & H2 & H3 & H4 & H5 & H6).
+      destruct (ed_run r st' ops) as [s out]. cbn [fst] in *. exists te'.
+      split; [exact H1|]. split; [exact H2|]. split; [congruence|]. split; [congruence|]. split; [congruence|].
+      intro n. rewrite H6. cbn [spec_targets fold_left]. apply spec_targets_ext. exact Hl1.
+    + destruct (IH st te Hte Hok Hs) as (te' & H1 & H2 & H3 & H4 & H5 & H6).
+      destruct (ed_run r st ops) as [s out]. cbn [fst] in *. exists te'. repeat (split; [assumption|]).
+      intro n. rewrite H6. cbn [spec_targets fold_left]. apply spec_targets_ext. intro x. symmetry.
+      apply (refused_stays r st te o Hte So S).
+Qed.
+
+(* what sign hands on is what the editor held *)
+Lemma sign_tree_entries len_of dig_of r e dkeys ch keys tg sn ts srv :
+  ed_sign_tree len_of dig_of r e dkeys ch keys = Some (tg, sn, ts, srv) ->
+  tg_entries tg = e_entries e /\ tg_version tg = e_tv e /\ tg_expires tg = e_texp e
+  /\ sn_version sn = e_sv e /\ ts_version ts = e_tsv e.
+Proof.
+  unfold ed_sign_tree, ed_sign_tree_gen.
+  destruct (signed_role r 2 keys), (signed_role r 1 keys), (signed_role r 3 keys); try discriminate.
+  destruct (_ && _); [|discriminate]. destruct (validate _); [|discriminate].
+  intro H. inversion H; subst. repeat split.
+Qed.
+
+(* the targets a client sees in the top-level role are those of the abstract map: [pre] is any program that
+   leaves the editor on the top-level role (the empty program, or one ending in change_delegated_targets
+   "targets" or from_repo), [seg] the operations made on it since *)
+Theorem program_targets_seen (len_of dig_of : content -> N) r pre seg keys te0 tg sn ts srv :
+  rd_te (fst (ed_run r red_new pre)) = Some te0 ->
+  forallb stays seg = true ->
+  ed_program_sign len_of dig_of r (pre ++ seg) keys = Some (tg, sn, ts, srv) ->
+  forall n, lookup_target n (tg_entries tg) = spec_targets seg (te_lookup te0) n.
+Proof.
+  intros Hte Hs Hsign n. unfold ed_program_sign in Hsign. rewrite run_app in Hsign.
+  assert (te_ok te0) as Hok0.
+  { pose proof (run_ok r pre red_new I) as H. unfold st_ok in H. rewrite Hte in H. exact H. }
+  destruct (run_stays r seg _ te0 Hte Hok0 Hs) as (te' & H1 & H2 & H3 & H4 & H5 & H6).
+  unfold ed_at_sign in Hsign. rewrite H1 in Hsign.
+  set (st' := fst (ed_run r (fst (ed_run r red_new pre)) seg)) in *.
+  destruct (rd_sv st'); [|discriminate]. destruct (rd_sexp st'); [|discriminate].
+  destruct (rd_tsv st'); [|discriminate]. destruct (rd_tsexp st'); [|discriminate].
+  destruct (bytes_eqb (te_name te') name_targets_role); [|discriminate].
+  destruct (te_version te'); [|discriminate]. destruct (te_expires te'); [|discriminate].
+  apply sign_tree_entries in Hsign as (He & _). cbn [ss_edit e_entries] in He. rewrite He. apply H6.
+Qed.
+
+(* from a new editor: nothing but what the program added and did not remove *)
+Corollary new_program_targets_seen (len_of dig_of : content -> N) r seg keys tg sn ts srv :
+  forallb stays seg = true ->
+  ed_program_sign len_of dig_of r seg keys = Some (tg, sn, ts, srv) ->
+  forall n, lookup_target n (tg_entries tg) = spec_targets seg (fun _ => None) n.
+Proof.
+  intros Hs Hsign n. rewrite (program_targets_seen len_of dig_of r [] seg keys ted_new_top tg sn ts srv eq_refl Hs Hsign).
+  apply spec_targets_ext. intro x. reflexivity.
+Qed.
+
+(* ---------------------------------------------------------------------------------------- *)
+(* non-vacuity: a program that builds targets -> A -> C and targets -> B, with additions, a removal and an
+   update, ends in the tree of EditorTreeP.tree_example (up to the targets removed), signs, and the client
+   loads it; the same program with one signature less for B is refused by sign *)
+Definition p_hdr_paths (p : bytes) : pathset := Paths [p].
+Definition x_prog (b_keys : list N) : list edop :=
+  [OpAdd (x_tn [116]) (x_ti 4 40); OpAdd (x_tn [117]) (x_ti 6 60); OpRemove (x_tn [117]); OpAdd (x_tn [116]) (x_ti 5 50);
+   OpDelegate [65] [4; 5; 6] (p_hdr_paths [97; 47; 42]) 2 500 1;
+   OpDelegate [66] [7; 8; 9] (p_hdr_paths [98; 47; 42]) 2 400 2;
+   OpTargetsVersion 2; OpTargetsExpires 900; OpSignEditor [2; 20];
+   OpChange [65]; OpAdd (x_tn [97; 47; 120]) (x_ti 1 10);
+   OpDelegate [67] [10; 11; 12] (p_hdr_paths [97; 47; 99; 47; 42]) 2 300 1;
+   OpTargetsVersion 3; OpTargetsExpires 500; OpSignEditor [4; 6; 2];
+   OpChange [66]; OpAdd (x_tn [98; 47; 122]) (x_ti 2 20); OpTargetsVersion 2; OpTargetsExpires 400; OpSignEditor b_keys;
+   OpChange name_targets_role;
+   OpTargetsVersion 7; OpTargetsExpires 900; OpSnapshotVersion 8; OpSnapshotExpires 800;
+   OpTimestampVersion 9; OpTimestampExpires 700].
+
+Lemma program_example : forall cs,
+  exists tg sn ts srv w,
+    ed_program_sign x_len x_len (x_root cs) (x_prog [9; 8; 2]) [1; 2; 3; 20] = Some (tg, sn, ts, srv)
+    /\ run_cycle fixed (x_cyc cs srv) store0 = (Ok {| rp_root := x_root cs; rp_ts := ts; rp_snap := sn; rp_targets := tg |}, w)
+    /\ map (fun ni => (tn_raw (fst ni), ti_len (snd ni))) (targets_iter tg) = [([116], 5); ([97; 47; 120], 1); ([98; 47; 122], 2)]
+    /\ snd (ed_run (x_root cs) red_new (x_prog [9; 8; 2])) = repeat true 27
+    /\ ed_program_sign x_len x_len (x_root cs) (x_prog [9; 2]) [1; 2; 3; 20] = None.
+Proof.
+  intro cs.
+  destruct (ed_program_sign x_len x_len (x_root cs) (x_prog [9; 8; 2]) [1; 2; 3; 20])
+    as [[[[tg sn] ts] srv]|] eqn:E; [|destruct cs; vm_compute in E; discriminate].
+  destruct (ed_at_sign (fst (ed_run (x_root cs) red_new (x_prog [9; 8; 2]))) [1; 2; 3; 20]) as [ss|] eqn:Ess;
+    [|destruct cs; vm_compute in Ess; discriminate].
+  destruct (program_roundtrip x_len x_len (x_root cs) (x_prog [9; 8; 2]) [1; 2; 3; 20] x_cfg 100 tg sn ts srv ss Ess E) as [w Hw].
+  - reflexivity.
+  - intros k Hk. cbn in Hk. intuition (subst; reflexivity).
+  - small_names.
+  - destruct cs; [discriminate|]. intros _. cbn. intuition discriminate.
+  - reflexivity.
+  - destruct cs; vm_compute in Ess; injection Ess as <-; vm_compute; lia.
+  - destruct cs; vm_compute in E; injection E as <- <- <- <-; vm_compute; discriminate.
+  - vm_compute; discriminate.
+  - destruct cs; vm_compute in Ess; injection Ess as <-; vm_compute; discriminate.
+  - destruct cs; vm_compute in Ess; injection Ess as <-; vm_compute; discriminate.
+  - destruct cs; vm_compute in Ess; injection Ess as <-; vm_compute; discriminate.
+  - exists tg, sn, ts, srv, w. split; [reflexivity|]. split; [exact Hw|].
+    destruct cs; vm_compute in E; injection E as <- <- <- <-; repeat split; vm_compute; reflexivity.
 Qed.
